@@ -30,7 +30,7 @@ CHECKS = {
             "Plain/map/filter_map connections to models and sinks from outputs, requestors, event/query sources, "
             "scheduler batches and process_*; volumes up to 2*cap+1; contended recipients; under every pick order the "
             "multiset of (message, recipient) processed must equal the multiset accepted by the connections.", S_NOTE, "5/C03"),
-    "C04": ("simx+shutx", "exploration", S_TECH,
+    "C04": ("simx+shutx+loomx", "exploration", S_TECH,
             "Content-deterministic benches under every pick order: at every Ok return no handler is half-way, no send "
             "pending, every sent message processed, and the per-command multiset of handler invocations, results and "
             "sink contents is identical across all schedules; a call that does not return is a violation (watchdog).",
@@ -156,13 +156,13 @@ def main():
             "enable": "engine S depends on /repo/nexosim with features=[\"verif-hooks\"]; the loom/shuttle mirrors enable the same feature",
             "baseline_off_cmd": BASELINE_OFF,
             "source_commits": ["fadbd29"],
-            "fix_commits": ["bd7a63b", "ac58999", "c54922d", "4c18616", "c9690c2"],
+            "fix_commits": ["bd7a63b", "ac58999", "c54922d", "4c18616", "c9690c2", "abbe7ca"],
             "add_only": True,
         },
         "engines": [
             {"name": "shutx", "path": "engines/shutx", "serves_properties": ["C02", "C03", "C04", "C05", "C06", "C07", "C08", "C12", "C14", "C19"],
              "kind_free_text": "mirror of /repo/nexosim/src compiled against shuttle 0.9.3 (engines/mirror/mirror.py rewrites import lines only); own preemption-bounded DFS scheduler; real MT executor, channel, Simulation"},
-            {"name": "loomx", "path": "engines/loomx", "serves_properties": ["C05", "C12", "C13", "C14", "C15"],
+            {"name": "loomx", "path": "engines/loomx", "serves_properties": ["C04", "C05", "C12", "C13", "C14", "C15"],
              "kind_free_text": "mirror of /repo/nexosim/src compiled against loom 0.7.2; loom DPOR with preemption bounds on the real queue, task, seqlock cell, cached lock"},
             {"name": "seqx", "path": "engines/seqx", "serves_properties": ["C07", "C12", "C17", "C20"],
              "kind_free_text": "bounded-exhaustive operation-sequence enumeration on the real data structures (source files bound by #[path]) against reference models"},
